@@ -38,7 +38,8 @@ Print Assumptions C13_wf_reachable.
 Theorem C13_iop_rebinds_never_writes : forall h d f y h' a, wf h ->
   exec h (OIop d f y) = (h', ROk) -> lookup d (env h) = Some (VArr a) ->
   read_arr (bufs h') a = read_arr (bufs h) a /\
-  exists a', lookup d (env h') = Some (VArr a') /\ a_buf a' = length (bufs h) /\ a_oid a' = noid h /\ a_off a' = 0.
+  exists a', lookup d (env h') = Some (VArr a') /\ a_buf a' = length (bufs h) /\ a_oid a' = noid h /\
+    a_idx a' = seq 0 (length (a_idx a')) /\ read_arr (bufs h') a' = nth (length (bufs h)) (bufs h') [].
 Proof. exact iop_rebinds_never_writes. Qed.
 Print Assumptions C13_iop_rebinds_never_writes.
 
@@ -79,15 +80,14 @@ Theorem C13_setitem_frame : forall h d s src h' r, exec h (OSet d s src) = (h', 
   (forall b, length (nth b (bufs h') []) = length (nth b (bufs h) [])) /\
   (r <> ROk -> h' = h) /\
   forall a reg, lookup d (env h) = Some (VArr a) -> select a s = inr reg ->
-    forall b i, (b <> a_buf a \/ i < region_off reg \/ region_off reg + size (region_shape reg) <= i) ->
+    forall b i, (b <> a_buf a \/ ~ In i (region_idx reg)) ->
       nth i (nth b (bufs h') []) c0 = nth i (nth b (bufs h) []) c0.
 Proof. exact setitem_frame. Qed.
 Print Assumptions C13_setitem_frame.
 
 Theorem C13_setitem_preserves_disjoint : forall h d s src h' r a reg, exec h (OSet d s src) = (h', r) ->
   lookup d (env h) = Some (VArr a) -> select a s = inr reg ->
-  forall a2, (a_buf a2 <> a_buf a \/ a_off a2 + size (a_shape a2) <= region_off reg
-              \/ region_off reg + size (region_shape reg) <= a_off a2) ->
+  forall a2, (a_buf a2 <> a_buf a \/ forall i, In i (a_idx a2) -> ~ In i (region_idx reg)) ->
   read_arr (bufs h') a2 = read_arr (bufs h) a2.
 Proof. exact setitem_preserves_disjoint. Qed.
 Print Assumptions C13_setitem_preserves_disjoint.
@@ -109,7 +109,7 @@ Print Assumptions C13_copy_independent.
 Theorem C13_component_views_alias : forall h c p i h1 ap, exec h (OComp c p i) = (h1, ROk) -> lookup p (env h) = Some (VArr ap) ->
   exists ac, lookup c (env h1) = Some (VArr ac) /\ bufs h1 = bufs h /\
     a_kind ac = KMesh /\ a_dt ac = a_dt ap /\ a_buf ac = a_buf ap /\ a_shape ac = tl (a_shape ap) /\
-    a_off ac = a_off ap + i * size (a_shape ac) /\ i < 2 /\ size (a_shape ap) = 2 * size (a_shape ac) /\
+    a_idx ac = sub (a_idx ap) (i * size (a_shape ac)) (size (a_shape ac)) /\ i < 2 /\ size (a_shape ap) = 2 * size (a_shape ac) /\
     forall bs, read_arr bs ac = firstn (size (a_shape ac)) (skipn (i * size (a_shape ac)) (read_arr bs ap)).
 Proof. exact component_views_alias. Qed.
 Print Assumptions C13_component_views_alias.
@@ -157,6 +157,35 @@ Theorem C13_parent_write_seen_in_component : forall h c p i h1 ap ac src h2 cell
   read_arr (bufs h2) ac = firstn (size (a_shape ac)) (skipn (i * size (a_shape ac)) cells).
 Proof. exact parent_write_seen_in_component. Qed.
 Print Assumptions C13_parent_write_seen_in_component.
+
+(* (6b) general basic-indexing views  d = s.transpose(perm)[start:stop:step, ...]  (strided, reversed, sub-block,
+   transposed): same class and buffer; in EVERY buffer state the view reads as the parent's cells gathered at fixed,
+   in-range, pairwise distinct positions; and a write through a COMPONENT of such a view of a multi-component mesh
+   lands in the mesh itself *)
+Theorem C13_strided_views_alias : forall h d s perm sl h1 ap, exec h (OView d s perm sl) = (h1, ROk) -> lookup s (env h) = Some (VArr ap) ->
+  exists av pos, lookup d (env h1) = Some (VArr av) /\ bufs h1 = bufs h /\
+    a_kind av = a_kind ap /\ a_dt av = a_dt ap /\ a_buf av = a_buf ap /\ a_shape av = map (fun x => snd x) sl /\
+    a_idx av = map (fun p => nth p (a_idx ap) 0) pos /\ Forall (fun p => p < length (a_idx ap)) pos /\
+    NoDup (a_idx av) /\ length (a_idx av) = size (a_shape av) /\
+    forall bs, read_arr bs av = map (fun p => nth p (read_arr bs ap) c0) pos.
+Proof. exact strided_views_alias. Qed.
+Print Assumptions C13_strided_views_alias.
+
+Theorem C13_strided_component_write_seen_in_base : forall h v p perm sl h1 ap av pos c i h2 ac src h3 cells, wfs h ->
+  exec h (OView v p perm sl) = (h1, ROk) -> lookup p (env h) = Some (VArr ap) -> lookup v (env h1) = Some (VArr av) ->
+  (forall bs, read_arr bs av = map (fun q => nth q (read_arr bs ap) c0) pos) ->
+  exec h1 (OComp c v i) = (h2, ROk) -> c <> v -> lookup c (env h2) = Some (VArr ac) ->
+  exec h2 (OSet c SAll src) = (h3, ROk) ->
+  (exists ps u, eval_operand h2 src = Some ps /\ as_ufarg (bufs h2) ps = Some u /\
+     assign_cells (a_dt ac) (a_shape ac) (u_cplx u) (u_shape u) (u_cells u) = Some cells) ->
+  firstn (size (a_shape ac)) (skipn (i * size (a_shape ac)) (map (fun q => nth q (read_arr (bufs h3) ap) c0) pos)) = cells.
+Proof. exact strided_component_write_seen_in_base. Qed.
+Print Assumptions C13_strided_component_write_seen_in_base.
+
+Example C13_nonvacuous_strided : exists h ap h1, wfs h /\ lookup 0 (env h) = Some (VArr ap) /\
+  exec h (OView 1 0 [0; 2; 1] [(0%Z, 1%Z, 2); (2%Z, (-2)%Z, 2); (0%Z, 1%Z, 2)]) = (h1, ROk).
+Proof. exact strided_demo_hypotheses. Qed.
+Print Assumptions C13_nonvacuous_strided.
 
 (* (7) abs() is the maximum norm, and that is a norm (exact cells; real: Z, complex: squared modulus
    with sqrt S <= sqrt A + sqrt B written root-free as [sqrt_le_sum]) *)
